@@ -411,6 +411,9 @@ class SpanMachine:
                 bad("replay_state", "impl %r ref %r" % (before, st))
                 return None
             keep = sp.copy()
+            # observe, mutate, observe: read the span through every accessor BEFORE the operation too, so that state
+            # derived from an earlier observation (a cache) would be seen going stale
+            self.check_state(f, sp, st, bad, res)
             try:
                 new, inplace = self.impl_apply(f, sp, op)
             except Exception as e:
